@@ -25,4 +25,6 @@ func runC02(c *Ctx) {
 		c.Res.Note("wp/c02.WorkaroundDiscardCache is on: DBs with transactions run with BlockCacheEvictRemoved=true (see histogram `workaround`)")
 	}
 	wpc02.Run(c.R.Fork(), sz, wpSink(c))
+	// DB iterators under a comparer that calls different byte strings equal (implementation-side oracle only)
+	c02NonInjective(c, c.Scale(60, 1500))
 }
